@@ -372,16 +372,26 @@ impl<'a> StringParser<'a> {
                 }
                 '"' | '\'' => {
                     expression.push(ch);
-                    loop {
+                    // a triple-quoted string ends at the same three quotes, not at the next quote
+                    let mut ahead = self.chars.clone();
+                    let closing = if ahead.next() == Some(ch) && ahead.next() == Some(ch) {
+                        expression.push(ch);
+                        expression.push(ch);
+                        self.next_char();
+                        self.next_char();
+                        3
+                    } else {
+                        1
+                    };
+                    let mut run = 0;
+                    while run < closing {
                         let Some(c) = self.next_char() else {
                             return Err(
                                 FStringError::new(UnterminatedString, self.get_pos()).into()
                             );
                         };
                         expression.push(c);
-                        if c == ch {
-                            break;
-                        }
+                        run = if c == ch { run + 1 } else { 0 };
                     }
                 }
                 ' ' | '\t' | '\n' | '\x0c' if self_documenting => {
